@@ -19,7 +19,7 @@ ASSUMPTIONS = [
     "(both crash the real node: C18's subject); the model returns Crash for the negative index",
 ]
 
-TRIGGERS = {1: "C15.mint_to_report_locker", 2: "C15.supply_address_transacts"}
+TRIGGERS = {2: "C15.supply_address_transacts"}   # C15.mint_to_report_locker is fixed (/repo b01fdf0): its witness is corpus case 0, expected to hold
 CHECKS = {1: "one tracker per external transaction name across the three stores",
           2: "supply counter = wrapped tokens in circulation",
           3: "every change of a wrapped balance is a transfer, a redeem debit, a threshold-crossing mint of the locked amount to the "
@@ -27,7 +27,9 @@ CHECKS = {1: "one tracker per external transaction name across the three stores"
           4: "recorded tracker fields never change and a vote slot changes only by the recorded witness of an empty slot",
           5: "at most one mint and one refund per tracker name",
           6: "mint / refund happen in the transaction that crosses the threshold",
-          7: "a tracker is created only by an accepted lock/redeem of a name in no store, with empty slots (redeem: debited in the same step)"}
+          7: "a tracker is created only by an accepted lock/redeem of a name in no store, with empty slots (redeem: debited in the same step)",
+          8: "REGRESSION of the repaired defect C15.mint_to_report_locker: the locked amount was credited to the Locker named in the "
+             "threshold-crossing report instead of the account that submitted the lock"}
 
 
 def run_shard(vh, out_dir, shard, args):
@@ -62,9 +64,14 @@ def evaluate(ctx, vh, shard_args):
     return reps, cases, sorted(mm), sorted(sv), st
 
 
+SCRIPTS = []   # the scripted corpus cases: they are cases 0.. of shard 0
+
+
 def payload(cases, shard, ci, step, extra):
     c = cases[shard][ci]
     lo = max(0, step - 12)
+    if shard == 0 and ci < len(SCRIPTS):
+        extra = dict(extra, script=SCRIPTS[ci], kind_of_case="scripted corpus case %d" % ci)
     return dict(extra, cfg=c["Cfg"], scripted=(c["Cfg"]["Blocks"] == 0), first_bad_step=step,
                 steps_before=[c["Descr"][j] + (" -> ok" if c["Obs"][j]["Ok"] else " -> fail") for j in range(lo, min(step + 1, len(c["Descr"])))],
                 observed=c["Obs"][step] if step < len(c["Obs"]) else None,
@@ -103,6 +110,8 @@ def run(ctx):
         nshard, n, blocks = 16, 12, 60
     else:
         nshard, n, blocks = 8, 5, 40
+    if os.path.exists(corpus):
+        SCRIPTS[:] = json.load(open(corpus))
     shard_args = []
     for i in range(nshard):
         a = ["-seed", str(ctx.seed), "-n", str(n), "-blocks", str(blocks)]
@@ -126,12 +135,15 @@ def run(ctx):
         "mints_observed": sum(r["mints_observed"] for r in reps.values()), "refunds_observed": sum(r["refunds_observed"] for r in reps.values()),
         "genuine_votes": st[0], "crossings_yes": st[1], "crossings_no": st[2], "crossings_with_lying_locker": st[3], "steps_in_supply_trigger": st[4],
         "model_mismatches": len(mm), "monitor_findings": len(sv),
-        "monitor_findings_by_class": {str(k): sum(1 for x in sv if x[4] == k) for k in (0, 1, 2)},
+        "monitor_findings_by_class": {str(k): sum(1 for x in sv if x[4] == k) for k in (0, 2)},
+        "corpus_cases": len(SCRIPTS),
+        "fixed_finding_witness_holds": (not any(x[0] == 0 and x[1] == 0 for x in sv)) and (not any(x[0] == 0 and x[1] == 0 for x in mm)),
         "samples": [s for r in reps.values() for s in r["samples"]][:3],
         "explanation": "theorems of props/C15.v re-checked; Tracker.v evaluated by vm_compute on every step of every recorded run of the real "
                        "application, comparing result code, the three tracker stores (type, state, witnesses, vote slots, owner, external tx) and all wrapped "
                        "balances (model_mismatches must be 0); the property monitor (TrackerCheck.v, 7 checks) is evaluated on the IMPLEMENTATION's observed "
-                       "states; findings inside a Coq-defined trigger region with the recorded effect signature are known findings, anything else a violation",
+                       "states; findings inside a Coq-defined trigger region with the recorded effect signature are known findings, anything else a violation; "
+                       "corpus case 0 is the lying-witness history of the repaired defect C15.mint_to_report_locker and must satisfy every check",
     })
     judge(ctx, cases, mm, sv)
     if broken is not None and ctx.violations == 0:
@@ -144,6 +156,7 @@ def replay(ctx, rp):
     if not ok:
         raise Broken("model does not build", log[-2000:])
     tmp = os.path.join(ctx.scratch, "one.json")
+    SCRIPTS[:] = [rp["script"]] if "script" in rp else []
     if rp.get("kind") == "script" or "script" in rp:
         json.dump([rp["script"]], open(tmp, "w"))
         args = ["-n", "0", "-script", tmp]
